@@ -191,6 +191,7 @@ impl ZTok {
 impl Drop for ZTok {
     fn drop(&mut self) {
         ledger::zst_drop();
+        fault::on_zst_drop();
     }
 }
 impl Clone for ZTok {
